@@ -84,6 +84,7 @@ type pathCtx struct {
 	depth       int
 	maxDepth    int
 	permute     bool // symbolic map iteration order
+	permuteTwo  bool // ... restricted to insertion order / reverse insertion order per map
 	panicMode   string
 	harness     string
 	concrete    map[string]uint64 // replay mode: model driving a concrete run (no solver)
